@@ -30,6 +30,7 @@ type Job struct {
 	FPOnly  bool     `json:"fponly"`
 	Run     bool     `json:"run"`
 	Gen     string   `json:"gen"`
+	Table   bool     `json:"table,omitempty"`
 	Samples []Sample `json:"samples,omitempty"`
 }
 
